@@ -378,8 +378,9 @@ impl Candidates {
         self.inner.insert(address, ());
     }
 
+    /// Most recently reported candidates first (`LruCache::iter` starts at the least recently used entry).
     fn iter(&self) -> impl Iterator<Item = &Multiaddr> {
-        self.inner.iter().map(|(a, _)| a)
+        self.inner.iter().rev().map(|(a, _)| a)
     }
 }
 
